@@ -66,6 +66,16 @@ def gen_knap(rng):
     if sc != 1 and rng.random() < 0.5:            # the decimals whose binary sums misbehave
         weights = [rng.choice([1, 2, 3, 7]) * (sc // 10) for _ in range(n)]
         cap = rng.choice([3, 6, 7, 10]) * (sc // 10)
+    if rng.random() < 0.06:
+        # large integer capacity (beyond 10^5) nearly filled by one heavy item, the rest of the room fits several unit-size items
+        cap = rng.randint(100001, 400000)
+        k = rng.randint(2, 5)
+        room = rng.randint(1, k)
+        weights = [cap - room] + [1] * k + [rng.randint(2, cap) for _ in range(rng.randint(0, 2))]
+        values = [rng.randint(5, 12)] + [rng.randint(1, 3) for _ in range(k)] + [rng.randint(0, 9) for _ in range(len(weights) - k - 1)]
+        order = list(range(len(weights)))
+        rng.shuffle(order)
+        return {"values": [values[i] for i in order], "weights": [weights[i] for i in order], "capacity": cap, "scale": 1}
     return {"values": values, "weights": weights, "capacity": cap, "scale": sc}
 
 
